@@ -165,6 +165,33 @@ fn check_transition(rep: &Reporter, spec: &LangSpec, init: &str, hist: &[Op], pr
       }
     }
   };
+  // the description of the edit handed to tree-sitter: byte offsets and (row, byte column) points
+  // of the start, of the old end in the OLD text and of the new end in the NEW text
+  if let Op::Edit { pos, del, ins } = op {
+    use ast_grep_core::source::Content;
+    let mut scratch = before.clone();
+    let ie = scratch.accept_edit(&Edit::<String> { position: *pos, deleted_length: *del, inserted_text: ins.as_bytes().to_vec() });
+    let pt = |t: &str, off: usize| -> (usize, usize) {
+      let b = &t.as_bytes()[..off];
+      let row = b.iter().filter(|c| **c == b'\n').count();
+      let col = off - b.iter().rposition(|c| *c == b'\n').map(|i| i + 1).unwrap_or(0);
+      (row, col)
+    };
+    let got = (
+      ie.start_byte() as usize, ie.old_end_byte() as usize, ie.new_end_byte() as usize,
+      (ie.start_position().row() as usize, ie.start_position().column() as usize),
+      (ie.old_end_position().row() as usize, ie.old_end_position().column() as usize),
+      (ie.new_end_position().row() as usize, ie.new_end_position().column() as usize),
+    );
+    let exp = (*pos, pos + del, pos + ins.len(), pt(&before, *pos), pt(&before, pos + del), pt(&want, pos + ins.len()));
+    if got != exp {
+      let which = if got.0 != exp.0 || got.1 != exp.1 || got.2 != exp.2 { "bytes" } else if got.3 != exp.3 { "start-point" } else if got.4 != exp.4 { "old-end-point" } else { "new-end-point" };
+      rep.violation(&format!("input-edit-description-wrong:{which}"), case(json!({"got": format!("{got:?}"), "want": format!("{exp:?}")})));
+    }
+    if scratch != want {
+      rep.violation("accept_edit-text-differs-from-splice", case(json!({"got": scratch, "want": want})));
+    }
+  }
   let text = g.source().to_string();
   if text != want {
     rep.violation("source-differs-from-splice", case(json!({"got": text, "want": want})));
